@@ -50,6 +50,15 @@ def core_item(draw, depth):
 
 @st.composite
 def query_item(draw):
+    if draw(st.integers(0, 3)) == 0:
+        # star-shaped joins: several joins that depend only on the first source sit in ONE layer of the join DAG, whose
+        # topological order must not come from set iteration
+        n = draw(st.integers(3, 5))
+        tabs = [draw(st.sampled_from(("t", "u", "v"))) for _ in range(n)]
+        key = {"t": "a", "u": "a", "v": "b"}
+        joins = "".join(f" {draw(st.sampled_from(('JOIN', 'JOIN', 'LEFT JOIN')))} {tb} AS y{i} ON x1.{key[tabs[0]]} = y{i}.{key[tb]}" for i, tb in enumerate(tabs[1:], start=2))
+        sel = ", ".join(f"y{i}.{key[tb]} AS o{i}" for i, tb in enumerate(tabs[1:], start=2))
+        return {"op": "optimize", "dialect": draw(st.sampled_from(("duckdb", "", "postgres"))), "write": "", "sql": f"SELECT x1.{key[tabs[0]]} AS o0, {sel} FROM {tabs[0]} AS x1{joins}"}
     q = draw(queries.case("optimizer", 2))
     op = draw(st.sampled_from(("optimize", "optimize", "qualify", "annotate", "lineage")))
     return {"op": op, "dialect": draw(st.sampled_from(("duckdb", "", "postgres", "bigquery", "snowflake", "mysql", "spark", "tsql"))), "write": "", "sql": q["sql"]}
@@ -68,8 +77,18 @@ SCHEMA_UDFS = [{"Amount": "STRING", "Id": "INT"}, {"Users": "INT", "a": "STRING"
 SCHEMA_NAMES = ("Users", "users", "USERS", "Items", "items", "Amount", "amount", "Id", "id", "ID", "t", "T", "a", "A", "ab", "AB", "Cd", "cd", "Ef", "EF")
 
 
+MIX_SCHEMA = {"w": {"s": "VARCHAR", "d": "DATE", "ts": "TIMESTAMP", "n": "BIGINT", "dc": "DECIMAL", "f": "DOUBLE", "b": "BOOLEAN"}}
+MIX_EXPRS = ("COALESCE({0}, {1})", "CASE WHEN b THEN {0} ELSE {1} END", "LEAST({0}, {1})", "GREATEST({0}, {1})", "IF(b, {0}, {1})", "{0} + {1}", "COALESCE({0}, '2020-01-01')", "COALESCE('1', {0})")
+
+
 @st.composite
 def schema_item(draw):
+    if draw(st.integers(0, 3)) == 0:
+        # type inference over operands of DIFFERENT type families: the coercion tables are per dialect, a dialect loaded earlier
+        # (BigQuery, Hive, Databricks extend theirs) must not change what another dialect infers
+        cols = ("s", "d", "ts", "n", "dc", "f")
+        e = draw(st.sampled_from(MIX_EXPRS)).format(draw(st.sampled_from(cols)), draw(st.sampled_from(cols)))
+        return {"op": "annmix", "dialect": draw(st.sampled_from(("", "postgres", "mysql", "duckdb", "bigquery", "hive", "databricks", "snowflake"))), "write": "", "sql": f"SELECT {e} AS c FROM w"}
     m = draw(st.integers(0, len(SCHEMA_MAPPINGS) - 1))
     kind = draw(st.sampled_from(("cols", "type", "type", "has", "optimize", "udf", "udf")))
     return {"op": "schema", "dialect": draw(st.sampled_from(("bigquery", "bigquery", "snowflake", "postgres", "mysql", "duckdb", ""))), "write": "", "sql": "", "m": m, "kind": kind,
@@ -107,7 +126,7 @@ def check_workload(work, res=None, configs=CONFIGS):
     for ci, out in enumerate(outs[1:], start=1):
         for k, v in base.items():
             it = items[int(k)]
-            changed = it["op"] in ("optimize", "simplify", "qualify", "lineage", "annotate", "schema")
+            changed = it["op"] in ("optimize", "simplify", "qualify", "lineage", "annotate", "schema", "annmix")
             if res is not None:
                 res.case(core.h8([it, configs[ci]]), bool(changed or configs[ci][2]), [f"op:{it['op']}", f"config:{ci}"])
             if out.get(k) != v:
@@ -137,7 +156,7 @@ def run_shard(spec, seed, res, only_bucket=None):
     core.drive(core_item(spec["depth"]), lambda it, r: items.append(it) or [], seed, spec["core"], scratch)
     core.drive(query_item(), lambda it, r: items.append(it) or [], seed + 1, spec["query"], scratch)
     core.drive(schema_item(), lambda it, r: items.append(it) or [], seed + 2, spec.get("schema", 0), scratch)
-    work = {"items": items, "schema": queries.schema_dict(), "mappings": SCHEMA_MAPPINGS, "udfs": SCHEMA_UDFS}
+    work = {"items": items, "schema": queries.schema_dict(), "mappings": SCHEMA_MAPPINGS, "udfs": SCHEMA_UDFS, "mix_schema": MIX_SCHEMA}
     fails = check_workload(work, res)
     for b, d in fails:
         res.fail(b, work, d)
